@@ -87,6 +87,8 @@ def level(e):
         return 0
     if k == 'Lambda':
         return PRIMARY      # a prefix construct may start anywhere; only its greedy body matters
+    if k == 'Paren':
+        return PRIMARY      # redundant parentheses (C15): ('Paren', e, n)
     raise ValueError(k)
 
 
@@ -110,6 +112,8 @@ class Minimal:
             return e[1], False
         if k == 'Val':
             return lit(e[1]), False
+        if k == 'Paren':
+            return '(' * e[2] + self.U(e[1], 0, True) + ')' * e[2], False
         if k == 'Dict':
             tc = len(e) > 2 and e[2] == ','
             return '{' + ', '.join(U(a, 0, True) + ': ' + U(b, 0, True) for a, b in e[1]) + (',' if tc else '') + '}', False
@@ -190,7 +194,7 @@ class Full(Minimal):
 
     def U(self, e, minl, rightmost):
         text, _ = self.R(e, True)
-        if e[0] in ('Name', 'Val', 'Dict'):
+        if e[0] in ('Name', 'Val', 'Dict', 'Paren'):
             return text
         if e[0] == 'Call' and (mark_of(e) or '').rstrip(',') in ('', 'call', 'lit'):
             return text
@@ -223,6 +227,8 @@ def full_expr(e):
 def clean(e):
     """drop generator marks -> the plain neutral tree refparse / neutral() produce"""
     if isinstance(e, tuple):
+        if e[0] == 'Paren':
+            return clean(e[1])
         if e[0] == 'Call':
             return ('Call', e[1], [clean(a) for a in e[2]])
         if e[0] == 'Dict':
